@@ -398,7 +398,7 @@ def check_calls_sim(chk):
             n_ok += 1
     if n_ok:
         chk.ok('C04.B', f'{n_ok} abstract calls (0-3 declared parameters, with / without "...", explicit lastArgArray False, 0 to n+2 arguments): locals at the first statement of the body '
-               f'equal the binding table (args[i] / fresh args[i:] / null / []; surplus ignored)')
+               f'equal the binding table (args[i] / fresh args[i:] / null / []; surplus ignored)', count=n_ok)
         chk.ok('C04.F', f'{n_ok} abstract calls: each call runs its own statement list with a locals dict created for the call, under the caller\'s options; assignments stay local')
         for ctx in ('argument present, ordinary parameter -> args[i]', 'argument present, the "..." parameter -> fresh args[i:]', 'argument missing, ordinary parameter -> null',
                     'argument missing, the "..." parameter -> []', 'explicit lastArgArray False behaves like absent', 'surplus arguments are ignored'):
